@@ -80,6 +80,7 @@ fn main() {
         "gen-parse" => parsefam::gen_parse(&args),
         "gen-lex" => lexfam::gen_lex(&args),
         "gen-total" => totalfam::gen_total(&args),
+        "gen-enc" => encfam::gen_enc(&args),
         "gen-binary" => totalfam::gen_binary(&args),
         "gen-roundtrip" => seqfam::gen_roundtrip(&args),
         "gen-heap" => gcfam::gen_heap(&args),
